@@ -10,6 +10,11 @@ package main
 // input  = "sched=<seed>;cmd=<balance|print|check>;kind=<ok|assert|noprice|syntax|missing|notopen>;
 //           ndir=<generated directives>;ndays=<distinct dates>;args=<a b c>;files=<name|content|name|content..>"
 //          (names and contents escaped with esc)
+//          include-GRAPH cases (kind ok or cycle) also carry "graph=<f>>g.h,..>" (the include directives of file number f
+//          in file order, files numbered as in files=, 0 = root) and "perfile=<n0.n1...>" (directives written in each file):
+//          ndir is then the sum over the simple include paths from the root of the directives of the path's last file
+//          (a file included from two places is loaded twice), computed here by depth-first search and, independently, in
+//          kmodel by running the extracted transition system of Model/PipeFromPathCycle.v on the graph.
 // observed (C19.trace) = "exit=<..> out=<empty|nonempty> adds=<n> printed=<n|-> hooks=<0|1> trace=<st:ph:date,...>"
 // observed (C19.race)  = "race=<0|1|-> exit=<..>"
 
@@ -42,6 +47,9 @@ type c19Case struct {
 	ndays int
 	args  []string
 	files []c19File
+	// include-graph cases only
+	graph   [][]int
+	perfile []int
 }
 
 func (c c19Case) encode() string {
@@ -49,8 +57,23 @@ func (c c19Case) encode() string {
 	for _, f := range c.files {
 		fs = append(fs, vesc(f.name), vesc(strings.Join(f.lines, "\n")+"\n"))
 	}
-	return fmt.Sprintf("sched=%d;cmd=%s;kind=%s;ndir=%d;ndays=%d;args=%s;files=%s",
-		c.sched, c.cmd, c.kind, c.ndir, c.ndays, vesc(strings.Join(c.args, " ")), strings.Join(fs, "|"))
+	extra := ""
+	if c.graph != nil {
+		var gs, ps []string
+		for f, incs := range c.graph {
+			var ts []string
+			for _, g := range incs {
+				ts = append(ts, fmt.Sprint(g))
+			}
+			gs = append(gs, fmt.Sprintf("%d>%s", f, strings.Join(ts, ".")))
+		}
+		for _, n := range c.perfile {
+			ps = append(ps, fmt.Sprint(n))
+		}
+		extra = fmt.Sprintf("graph=%s;perfile=%s;", strings.Join(gs, ","), strings.Join(ps, "."))
+	}
+	return fmt.Sprintf("sched=%d;cmd=%s;kind=%s;ndir=%d;ndays=%d;args=%s;%sfiles=%s",
+		c.sched, c.cmd, c.kind, c.ndir, c.ndays, vesc(strings.Join(c.args, " ")), extra, strings.Join(fs, "|"))
 }
 
 func c19Decode(in string) (kv map[string]string, files [][2]string) {
@@ -175,6 +198,155 @@ func genC19Journal(r *rng, kind string, accruals bool) (dirs []string, ndays int
 	return dirs, len(distinct), injected
 }
 
+// c19Visits walks the include graph as syntax.parseRec does (one visit per include directive, the chain of ancestors
+// carried along, a file that is among its ancestors is a dead end and an error): the number of visits of every file
+// that are simple paths from the root, and whether some visit closes a cycle.
+func c19Visits(graph [][]int) (count []int, cyclic bool) {
+	count = make([]int, len(graph))
+	var walk func(f int, chain []int)
+	walk = func(f int, chain []int) {
+		for _, a := range chain {
+			if a == f {
+				cyclic = true
+				return
+			}
+		}
+		count[f]++
+		chain = append(append([]int{}, chain...), f)
+		for _, g := range graph[f] {
+			walk(g, chain)
+		}
+	}
+	walk(0, nil)
+	return
+}
+
+// genC19Graph: an include GRAPH that is not a tree (harness/c06imp.go case "graph" has the fixed shapes; seeded change
+// C06c-load-once-set, a global set of loaded files, was missed by C19 because every generated layout was a tree):
+// a diamond, a file included three times, mutual includes reachable over two routes, a longer cycle entered at two
+// points, a cycle below a diamond, and random graphs (every file below the root has one or two parents, sometimes an
+// include back to an earlier file).  The opens are in the root; the other files hold transactions and prices only, so
+// that a file may be loaded several times.  kind = ok (census: sum over simple paths) or cycle (exit 1, empty stdout).
+func genC19Graph(r *rng) c19Case {
+	var graph [][]int
+	var names []string
+	switch shape := r.intn(9); shape {
+	case 0: // diamond: root -> a, b; a -> c; b -> c
+		names = []string{"root.knut", "a.knut", "b.knut", "sub/c.knut"}
+		graph = [][]int{{1, 2}, {3}, {3}, {}}
+	case 1: // a file included twice by the same file and once more below
+		names = []string{"root.knut", "a.knut", "c.knut"}
+		graph = [][]int{{2, 1, 2}, {2}, {}}
+	case 2: // three routes to a file that includes another one: d and e are loaded three times each
+		names = []string{"root.knut", "a.knut", "b.knut", "sub/c.knut", "sub/d.knut", "e.knut"}
+		graph = [][]int{{1, 2, 3}, {4}, {4}, {4}, {5}, {}}
+	case 3: // two files that include each other, both reachable from the root
+		names = []string{"root.knut", "a.knut", "b.knut"}
+		graph = [][]int{{1, 2}, {2}, {1}}
+	case 4: // a longer cycle a -> c -> b -> a entered at a and at b
+		names = []string{"root.knut", "a.knut", "b.knut", "d/c.knut"}
+		graph = [][]int{{1, 2}, {3}, {1}, {2}}
+	case 5: // a cycle below a diamond
+		names = []string{"root.knut", "a.knut", "b.knut", "c.knut", "d.knut"}
+		graph = [][]int{{1, 2}, {3}, {3}, {4}, {3}}
+	default: // random: file f > 0 is included by one or two earlier files; sometimes an include back
+		nf := r.rangeInt(3, 6)
+		graph = make([][]int, nf)
+		names = []string{"root.knut"}
+		for f := 1; f < nf; f++ {
+			dir := ""
+			if r.chance(35) {
+				dir = fmt.Sprintf("s%d", r.intn(2))
+			}
+			names = append(names, filepath.Join(dir, fmt.Sprintf("f%d.knut", f)))
+			p := r.intn(f)
+			graph[p] = append(graph[p], f)
+			if r.chance(60) {
+				q := r.intn(f)
+				graph[q] = append(graph[q], f) // q == p: the same file included twice by one file
+			}
+		}
+		if shape == 8 || r.chance(25) {
+			from := r.rangeInt(1, nf-1)
+			graph[from] = append(graph[from], r.intn(from+1)) // back to an earlier file, or to itself
+		}
+	}
+	nf := len(graph)
+	count, cyclic := c19Visits(graph)
+	c := c19Case{sched: 1 + r.intn(1000000), kind: "ok", graph: graph}
+	if cyclic {
+		c.kind = "cycle"
+	}
+	// directives
+	accounts := append(append([]string{}, c19Assets...), c19Others...)
+	start := time.Date(2019+r.intn(4), time.Month(1+r.intn(12)), 1+r.intn(27), 0, 0, 0, 0, time.UTC)
+	day := func(k int) string { return start.AddDate(0, 0, k).Format("2006-01-02") }
+	dirs := make([][]string, nf)
+	for _, a := range accounts {
+		dirs[0] = append(dirs[0], fmt.Sprintf("%s open %s\n", day(0), a))
+	}
+	dirs[0] = append(dirs[0], fmt.Sprintf("%s price USD 0.9%d CHF\n", day(0), r.intn(10)))
+	ndates := r.rangeInt(3, 9)
+	for f := 0; f < nf; f++ {
+		for k := r.rangeInt(1, 4); k > 0; k-- {
+			com := "CHF"
+			if r.chance(25) {
+				com = "USD"
+			}
+			cr, dr := pick(r, accounts), pick(r, accounts)
+			for dr == cr {
+				dr = pick(r, accounts)
+			}
+			dirs[f] = append(dirs[f], fmt.Sprintf("%s \"g%d %s\"\n%s %s %d %s\n", day(1+r.intn(ndates)), f,
+				strings.Repeat("y", r.intn(6)), cr, dr, r.rangeInt(1, 5000), com))
+		}
+		if r.chance(30) {
+			dirs[f] = append(dirs[f], fmt.Sprintf("%s price USD %d.%02d CHF\n", day(1+r.intn(ndates)), r.intn(2), 80+r.intn(19)))
+		}
+	}
+	distinct := map[string]bool{}
+	c.files = make([]c19File, nf)
+	for f := 0; f < nf; f++ {
+		c.files[f].name = names[f]
+		c.perfile = append(c.perfile, len(dirs[f]))
+		c.ndir += count[f] * len(dirs[f])
+		c.files[f].lines = append(c.files[f].lines, dirs[f]...)
+		for _, d := range dirs[f] {
+			if count[f] > 0 {
+				distinct[d[:10]] = true
+			}
+		}
+		for _, g := range graph[f] {
+			rel, err := filepath.Rel(filepath.Dir(names[f]), names[g])
+			if err != nil {
+				panic(err)
+			}
+			if r.chance(25) {
+				rel = "./" + rel
+			}
+			c.files[f].lines = append(c.files[f].lines, fmt.Sprintf("include \"%s\"", rel))
+		}
+		ls := c.files[f].lines
+		for k := len(ls) - 1; k > 0; k-- {
+			j := r.intn(k + 1)
+			ls[k], ls[j] = ls[j], ls[k]
+		}
+	}
+	c.ndays = len(distinct)
+	switch r.intn(10) {
+	case 0, 1, 2, 3:
+		c.cmd = "print"
+	case 4:
+		c.cmd = "check"
+	default:
+		c.cmd = "balance"
+		flagsets := [][]string{{}, {"-v", "CHF"}, {"--months"}, {"-v", "CHF", "--months", "--diff"}, {"--csv", "--years"},
+			{"-v", "CHF", "--remap", "Expenses"}}
+		c.args = append([]string{"--from", "2018-01-01", "--to", "2025-12-31", "--color=false"}, pick(r, flagsets)...)
+	}
+	return c
+}
+
 func genC19(out *caseWriter, seed uint64, n int, args []string) error {
 	race := len(args) > 0 && args[0] == "race"
 	// failure kinds, by the stage that fails: syntax, missing (parser goroutines), model (model.FromStream: a directive
@@ -185,6 +357,15 @@ func genC19(out *caseWriter, seed uint64, n int, args []string) error {
 	kinds := []string{"ok", "ok", "ok", "ok", "ok", "ok", "assert", "noprice", "syntax", "missing", "notopen", "model", "model", "multi"}
 	for i := 0; i < n; i++ {
 		r := newRng(seed, "C19", i)
+		if i%7 == 4 {
+			in := genC19Graph(r).encode()
+			if race {
+				out.add(fmt.Sprintf("C19r-%d-%d", seed, i), "C19.race", in)
+			} else {
+				out.add(fmt.Sprintf("C19-%d-%d", seed, i), "C19.trace", in)
+			}
+			continue
+		}
 		kind := kinds[r.intn(len(kinds))]
 		dirs, ndays, injected := genC19Journal(r, kind, race)
 		if !injected && (kind == "assert" || kind == "noprice" || kind == "notopen") {
